@@ -69,6 +69,20 @@ def run_job(job):
                 w.update(indicator=name)
                 viol.append({'key': key, 'msg': msg, 'witness': w})
 
+        # many indicators also accept a plain series (a strategy's own numbers): it must come back untouched as well
+        x1 = np.ascontiguousarray(indlib.series('walk', 120, rng.randrange(1 << 30))[:, 2], dtype=np.float64)
+        for seq_ in (True, False):
+            xa = x1.copy()
+            try:
+                f(xa, sequential=seq_)
+            except Exception:
+                cnt['series_input_raises'] = cnt.get('series_input_raises', 0) + 1
+                continue
+            cnt['series_input_calls'] = cnt.get('series_input_calls', 0) + 1
+            if not np.array_equal(xa, x1, equal_nan=True):
+                bad(f'input_modified:{name}', f'{name}(series, sequential={seq_}) wrote into the series it was given '
+                    f'({int((xa != x1).sum())} cells differ)', n=120)
+
         # windows exactly as long as the input that is available: period = n for a short input, period = W for a long one
         # (the single-value call only sees the trailing W candles)
         pk = [k_ for k_ in indlib.period_keys(sig) if k_ != 'order']     # (minmax: `order` is not a window length)
@@ -187,7 +201,7 @@ def make_jobs(tier, seed):
         for rep in range(6):
             for i in range(0, len(names), chunk):
                 jobs.append({'names': names[i:i + chunk], 'seed': rng.randrange(1 << 30), 'mode': 'bc', 'nparams': 40, 'lengths': LENGTHS,
-                             'kinds': ['walk', 'lattice', 'gappy', 'alternating', 'trend', 'spikes', 'flat', 'zerovol', 'tiny', 'flattail', 'outside', 'ties']})
+                             'kinds': ['walk', 'lattice', 'gappy', 'alternating', 'trend', 'spikes', 'flat', 'zerovol', 'tiny', 'flattail', 'outside', 'ties', 'quietstart']})
         for i in range(0, len(names), chunk):
             jobs.append({'names': names[i:i + chunk], 'seed': rng.randrange(1 << 30), 'mode': 'jit', 'nparams': 3,
                          'lengths': LENGTHS, 'kinds': ['walk', 'flat', 'alternating']})
